@@ -800,6 +800,31 @@ class Interp:
             if not isinstance(v, (list, tuple)):
                 raise Unknown("iterator method %s on %r" % (m, v))
             v = list(v)
+            if m in ("filter_map", "flat_map", "find_map", "for_each", "inspect"):
+                c = self.ev(args[1], env, depth)
+                out_ = []
+                for x in v:
+                    r_ = self.call_callable(c, [x], depth)
+                    if m == "filter_map":
+                        if isinstance(r_, Enum) and r_.variant == "Some":
+                            out_.append(r_.fields.get("0"))
+                        elif not (isinstance(r_, Enum) and r_.variant == "None"):
+                            raise Unknown("filter_map closure result %r" % (r_,))
+                    elif m == "find_map":
+                        if isinstance(r_, Enum) and r_.variant == "Some":
+                            return r_
+                    elif m == "flat_map":
+                        r_ = r_.get() if isinstance(r_, Ref) else r_
+                        if isinstance(r_, Enum) and r_.variant in ("Some", "None"):
+                            r_ = [r_.fields["0"]] if r_.variant == "Some" else []
+                        if not isinstance(r_, (list, tuple)):
+                            raise Unknown("flat_map closure result %r" % (r_,))
+                        out_.extend(r_)
+                    elif m == "inspect":
+                        out_.append(x)
+                if m == "find_map":
+                    return Enum("Option", "None")
+                return () if m == "for_each" else out_
             if m in ("any", "all", "filter", "map", "position", "find", "take_while", "skip_while"):
                 c = self.ev(args[1], env, depth)
                 if not isinstance(c, (PyClosure, PyFn)):
@@ -831,6 +856,31 @@ class Interp:
                 if not isinstance(o, (list, tuple)):
                     raise Unknown("zip with %r" % (o,))
                 return [(a_, b_) for a_, b_ in zip(v, o)]
+            if m in ("fold", "try_fold"):
+                acc = self.ev(args[1], env, depth)
+                fcl = self.ev(args[2], env, depth)
+                for x in v:
+                    acc = self.call_callable(fcl, [acc, x], depth)
+                    if m == "try_fold":
+                        if isinstance(acc, Enum) and acc.variant in ("Err", "None"):
+                            return acc
+                        if isinstance(acc, Enum) and acc.variant in ("Ok", "Some"):
+                            acc = acc.fields.get("0")
+                        else:
+                            raise Unknown("try_fold step result %r" % (acc,))
+                if m == "try_fold":
+                    is_opt = "Option<" in (e.get("ty") or "").split("<")[0] + "<"
+                    return Enum("Option", "Some", {"0": acc}) if (e.get("ty") or "").startswith("core::option::Option") else Enum("Result", "Ok", {"0": acc})
+                return acc
+            if m in ("sum", "product") and all(isinstance(x, (int, float)) and not isinstance(x, bool) for x in v):
+                r_ = 0 if m == "sum" else 1
+                for x in v:
+                    r_ = r_ + x if m == "sum" else r_ * x
+                return r_
+            if m in ("last",):
+                return Enum("Option", "Some", {"0": v[-1]}) if v else Enum("Option", "None")
+            if m in ("min", "max") and v and all(isinstance(x, (int, float)) and not isinstance(x, bool) for x in v):
+                return Enum("Option", "Some", {"0": min(v) if m == "min" else max(v)})
             if m == "count":
                 return len(v)
             if m == "rev":
@@ -1322,6 +1372,25 @@ class Interp:
                     return list(base[lo:hi])
                 raise Unknown("slice bounds (a run-time abort for these values)")
             raise Unknown("index")
+        if gen == "alloc::vec::Vec::<T, A>::splice":
+            base = self.ev(args[0], env, depth)
+            base = base.get() if isinstance(base, Ref) else base
+            rng = self.ev(args[1], env, depth)
+            repl = self.ev(args[2], env, depth)
+            repl = repl.get() if isinstance(repl, Ref) else repl
+            if isinstance(base, list) and isinstance(rng, Enum) and rng.adt.startswith("Range") and isinstance(repl, (list, tuple)):
+                lo = rng.fields.get("start", 0)
+                hi = rng.fields.get("end", len(base))
+                if rng.adt in ("RangeInclusive", "RangeToInclusive") and isinstance(hi, int):
+                    hi += 1
+                if not (isinstance(lo, int) and isinstance(hi, int)):
+                    raise Unknown("splice range")
+                if not 0 <= lo <= hi <= len(base):
+                    raise Unknown("core::panicking: splice range %d..%d out of bounds of %d" % (lo, hi, len(base)))
+                removed = base[lo:hi]
+                base[lo:hi] = list(repl)
+                return removed
+            raise Unknown("splice on %r" % (base,))
         if gen in ("alloc::vec::Vec::<T, A>::dedup", "alloc::vec::Vec::<T, A>::clear", "alloc::vec::Vec::<T, A>::truncate", "alloc::vec::Vec::<T, A>::reverse",
                    "core::slice::<impl [T]>::reverse", "alloc::vec::Vec::<T, A>::insert", "alloc::vec::Vec::<T, A>::remove", "alloc::vec::Vec::<T, A>::append"):
             base = self.ev(args[0], env, depth)
